@@ -17,8 +17,8 @@ ID = "C01"
 LEVEL = "model_checking"
 ASSUMPTIONS = [
     "programs: every sequence of <= L statements of the grammar in mc/grammar.py (plus one terminator), both storage layouts for programs that touch storage",
-    "inputs: x, y in {0,1,2,32,2^255,2^256-1}, callvalue in {0,1}, caller in a 2-address pool, balances in {0,5,2^100}; only symbols a program mentions are varied",
-    "standard interpretation of keccak and of the f_evm_* abstractions; documented modelling assumptions of halmos (no gas, hash range/injectivity, balances < 2^128, abstract created addresses) are inputs to the oracle",
+    "inputs: x, y in {0,1,2,32,2^255,2^256-1}, callvalue in {0,1}, caller in a 2-address pool, balances in {0,5,2^100,2^128}; only symbols a program mentions are varied",
+    "standard interpretation of keccak and of the f_evm_* abstractions; documented modelling assumptions of halmos (no gas, hash range/injectivity, balances <= 2^128, abstract created addresses) are inputs to the oracle",
     "paths halmos marks as stuck (internal error) make no claim here and are handed to C10",
     "the top-level message does not transfer msg.value (as in halmos's own drivers); reference does the same",
 ]
@@ -84,7 +84,7 @@ def mk_grid(spec):
     for a in spec["accounts"].values():
         if isinstance(a.get("balance"), list):
             syms[a["balance"][1]] = 256
-            special[a["balance"][1]] = [0, 5, 2**100]
+            special[a["balance"][1]] = [0, 5, 2**100, 2**128]
     return list(hdriver.input_grid(syms, D, special))
 
 
